@@ -29,6 +29,13 @@ def nontrivial_key(rec):
 
 
 def absorb(rep: Report, recs, mism, props):
+    failed = [r for r in recs if "build_failed" in r]
+    recs = [r for r in recs if "build_failed" not in r]
+    for r in failed[:50]:
+        # the library refused the add_child calls that construct a state of the specification
+        for p in props:
+            rep.mismatch({"id": r["id"], "property": p, "clause": "state_not_constructible:" + r["build_failed"].split(":")[0],
+                          "why": "build"}, {"fl": r["fl"], "pre": r["pre"], "op": r["op"], "status": r["build_failed"]})
     byid = {r["id"]: r for r in recs}
     rep.validated += len(recs)
     rep.evaluations += len(recs)
@@ -56,9 +63,9 @@ def stage_exhaustive(rep, props, *, label, consts, flnames, defdid="hash", mk=1,
     pairs = [(i, r["pre"], r["op"]) for i, r in enumerate(res.json_lines()) if "op" in r]
     res.cleanup()
     for fn in flnames:
-        recs = P.execute_pairs(pairs, fn, mk=mk, maxd=maxd)
+        recs = P.execute_pairs(pairs, fn, mk=mk, maxd=maxd, src_xid=11 if 11 in set(consts.get("Xids", ())) else 0)
         mism, checked, wall = P.validate_records(recs, defdid=defdid, mk=mk)
-        if checked != len(recs):
+        if checked != len([r for r in recs if "build_failed" not in r]):
             raise P.TLCError(f"{label}: validated {checked} of {len(recs)} records")
         absorb(rep, recs, mism, props)
         rep.stages.append({"stage": f"{label}:{fn}", "pairs": len(pairs), "records": len(recs),
@@ -140,7 +147,7 @@ def _random_history(args):
     mk = cfg.get("mk", 1)
     b = core.build(core.norm_state({"n": 0, "par": [], "kids": [], "top": [], "dat": [], "did": [], "knd": [],
                                     "meta": [], "typed": fl.typed}), fl, mk)
-    src = core.build(P.src_state(fl, mk), fl, mk, name="src")
+    src = core.build(P.src_state(fl, mk, 11 if 11 in cfg.get("xids", ()) else 0), fl, mk, name="src")
     out = []
     for k in range(steps):
         try:
@@ -210,7 +217,7 @@ def stage_faults(rep, props, *, label, max_nodes, d, flnames):
 
 
 # ------------------------------------------------------------------------------------------------
-PLAIN_FLAVOURS = ["str", "int", "tuple", "dataclass", "dictwrapper", "keyed"]
+PLAIN_FLAVOURS = ["str", "int", "tuple", "dataclass", "dictwrapper", "keyed", "falsy"]
 
 
 def run(prop: str, tier: str) -> int:
@@ -241,17 +248,17 @@ def run(prop: str, tier: str) -> int:
         stage_mc_only(rep, label="mc:plain<=5x3", consts=K(max_nodes=5, d=3, ops=["add", "move", "remove", "set_data"],
                                                             emit=False))
     # --- exhaustive transitions, executed
-    fl_q = {"C02": ["str", "keyed", "int"], "C01": ["str", "keyed"], "C04": ["str", "dataclass"]}.get(prop, ["str"])
+    fl_q = {"C02": ["str", "keyed", "falsy"], "C01": ["str", "keyed"], "C04": ["str", "dataclass"]}.get(prop, ["str"])
     pairs = stage_exhaustive(rep, props, label="ex:plain<=3x2", consts=K(max_nodes=3, d=2, ops=focus, emit=True),
                              flnames=fl_q if quick else PLAIN_FLAVOURS)
     typed_ops = focus if not quick else [o for o in focus if o in ("add", "badpos", "add_node", "add_tree", "remove", "move")]
     stage_exhaustive(rep, props, label="ex:typed<=3x2",
                      consts=K(max_nodes=3, d=2, typed=True, kinds=(0, 2), ops=typed_ops, emit=True),
                      flnames=["str+typed"] if quick else ["str+typed", "dataclass+typed"])
-    ids_ops = [o for o in focus if o in (("add", "set_data", "add_node") if quick else ("add", "set_data", "add_node", "remove", "move"))]
+    ids_ops = [o for o in focus if o in (("add", "set_data", "add_node", "add_tree") if quick else ("add", "set_data", "add_node", "add_tree", "remove", "move"))]
     stage_exhaustive(rep, props, label="ex:ids<=3x2",
                      consts=K(max_nodes=3, d=2, xids=(0, 11), ops=ids_ops, emit=True),
-                     flnames=["str"] if quick else ["str", "tuple"])
+                     flnames=(["str", "str0"] if prop in ("C02", "C04") else ["str0"]) if quick else ["str", "tuple", "str0"])
     stage_exhaustive(rep, props, label="ex:callback<=3x3", defdid="callback",
                      consts=K(max_nodes=3, d=3, ops=[o for o in focus if o in ("add", "set_data", "add_node", "remove", "move")],
                               emit=True), flnames=["callback"])
